@@ -99,7 +99,7 @@ def record_families():
             "combined": combined_mvcapa_penalty}
     out = []
     for n in (2, 3, 10, 100, 10000):
-        for p in range(1, 9):
+        for p in list(range(1, 9)) + [12, 25, 40, 60]:   # the intermediate family only becomes the minimum for large p
             for k in (1, 2):
                 for sn, sd in SCALES:
                     for fam, f in fams.items():
@@ -172,7 +172,7 @@ def record_tuned(args):
 
 def run(tier: str) -> int:
     chk = Check(PROP, tier)
-    chk.rule = ("grid n in {2,3,10,100,10^4} x p in 1..8 x scales {0, 1/2, 1, 2, 3.7} x parameters per variable {1,2} x "
+    chk.rule = ("grid n in {2,3,10,100,10^4} x p in 1..8 (penalty families also p in {12,25,40,60}) x scales {0, 1/2, 1, 2, 3.7} x parameters per variable {1,2} x "
                 "bandwidths {1,2,5} x levels: fitted attributes of PELT / Seeded / Circular / MovingWindow / CAPA and the four "
                 "public MVCAPA penalty families, each validated by TLC against the fixed-point formula; tuned thresholds and "
                 "PELT penalty sweeps on seeded lattice data.  Non-trivial = scale > 0 (value/family records), every tuned / "
